@@ -38,7 +38,7 @@ def regenerate():
     rc, out = sh([PY, os.path.join(ROOT, 'tools', 'gen_tables.py'), os.path.join(LEAN, 'H2', 'Gen', 'Tables.lean'),
                   os.path.join(WORK, 'gen_summary.json')])
     st['tables'] = 'ok' if rc == 0 else 'error: ' + out[-400:]
-    rc, out = sh([PY, os.path.join(ROOT, 'tools', 'py2lean.py'), os.path.join(LEAN, 'H2', 'Gen', 'Windows.lean')])
+    rc, out = sh([PY, os.path.join(ROOT, 'tools', 'py2lean.py'), os.path.join(LEAN, 'H2', 'Gen', 'WindowsRaw.lean')])
     try:
         st.update(json.loads(out.strip().splitlines()[-1]))
     except Exception:
@@ -47,6 +47,57 @@ def regenerate():
     rc, out = sh(['git', '-C', ROOT, 'diff', '--stat', '--', 'lean/H2/Gen'])
     st['gen_changed_vs_committed'] = bool(out.strip()) if rc == 0 else None   # None: not a git checkout
     return st
+
+
+# reference definition (H2/Gen/Windows.lean) -> the module whose one theorem says that the function regenerated from
+# /repo's current source (H2/Gen/WindowsRaw.lean) equals it
+BRIDGES = {
+    'H2.Gen.WindowManager.init': 'H2.Gen.Bridge.Init',
+    'H2.Gen.WindowManager.window_consumed': 'H2.Gen.Bridge.WindowConsumed',
+    'H2.Gen.WindowManager.window_opened': 'H2.Gen.Bridge.WindowOpened',
+    'H2.Gen.WindowManager.maybe_update_window': 'H2.Gen.Bridge.MaybeUpdateWindow',
+    'H2.Gen.WindowManager.process_bytes': 'H2.Gen.Bridge.ProcessBytes',
+    'H2.Gen.validate_setting': 'H2.Gen.Bridge.ValidateSetting',
+    'H2.Gen.guard_increment_window': 'H2.Gen.Bridge.GuardIncrementWindow',
+}
+
+
+def bridges():
+    """build every bridge module; -> {reference function: True / error text}.  When one fails, the regenerated and the
+    reference function are also evaluated on a grid of boundary values (tools/bridge_search.lean) and the first
+    difference, if any, is reported with it."""
+    res = {}
+    for fn, mod in sorted(BRIDGES.items()):
+        rc, out = sh(['lake', 'build', mod], cwd=LEAN, timeout=900)
+        res[fn] = True if rc == 0 else ('bridge theorem of %s does not check: ' % mod) + ' '.join(
+            l for l in out.splitlines() if 'error' in l)[:300]
+    if any(v is not True for v in res.values()):
+        rc, out = sh(['lake', 'env', 'lean', '--run', os.path.join(ROOT, 'tools', 'bridge_search.lean')], cwd=LEAN, timeout=600)
+        diffs = dict((l.split(' ')[1], l) for l in out.splitlines() if l.startswith('DIFF '))
+        for fn, v in list(res.items()):
+            if v is not True:
+                short = fn.split('.')[-1]
+                res[fn] = v + (' | differing input: ' + diffs[short][:400] if short in diffs else
+                               ' | no differing input on the boundary grid' if rc == 0 else ' | grid search did not run')
+    return res
+
+
+def retarget():
+    """a bridge theorem does not check: the theorems (about the reference definitions) do not speak about the current
+    source.  Fall back to building everything against the regenerated definitions themselves: a scratch copy of the
+    Lean project (with its build products) whose H2/Gen/Windows.lean is the translator's stand-alone output.  Switches
+    LEAN and the model driver to the copy; returns its directory (the caller removes it)."""
+    global LEAN
+    import shutil
+    import tempfile
+    d = tempfile.mkdtemp(prefix='h2_retarget_', dir='/var/tmp')
+    dst = os.path.join(d, 'lean')
+    shutil.copytree(LEAN, dst, symlinks=True)
+    rc, out = sh([PY, os.path.join(ROOT, 'tools', 'py2lean.py'), os.path.join(dst, 'H2', 'Gen', 'WindowsRaw.lean'),
+                  '--inline', os.path.join(dst, 'H2', 'Gen', 'Windows.lean')])
+    LEAN = dst
+    os.environ['H2_DRV'] = os.path.join(dst, '.lake', 'build', 'bin', 'h2drv')
+    return d
 
 
 def lake_build(targets):
@@ -114,12 +165,20 @@ def audit(pid, info):
         os.makedirs(os.path.join(WORK, 'audit'), exist_ok=True)
         path = os.path.join(WORK, 'audit', 'Audit_%s.lean' % pid)
         with open(path, 'w') as fh:
-            fh.write('import %s\n' % info['module'])
+            fh.write('import %s\nimport H2.Gen.Deps\n' % info['module'])
             for t in info['theorems']:
                 fh.write('#print axioms %s\n' % t)
+            # which reference definitions of H2/Gen/Windows.lean the theorems depend on (-> which bridges they need)
+            fh.write('#gen_deps %s\n' % ' '.join(info['theorems']))
         rc, out = sh(['lake', 'env', 'lean', path], cwd=LEAN, timeout=1200)
         cur = None
         text = out.replace('\n  ', ' ')
+        res['gen_deps'] = {}
+        for m in re.finditer(r"'([^']+)' uses generated: \[([^\]]*)\]", out.replace('\n', ' ')):
+            res['gen_deps'][m.group(1)] = [x.strip() for x in m.group(2).split(',') if x.strip()]
+        if set(res['gen_deps']) != set(info['theorems']):
+            res['ok'] = False
+            res['gen_deps_missing'] = sorted(set(info['theorems']) - set(res['gen_deps']))
         for t in info['theorems']:
             m = re.search(r"'%s' depends on axioms: \[([^\]]*)\]" % re.escape(t), text)
             if m:
